@@ -1072,7 +1072,7 @@ func (c01) Run(ctx *Ctx, ci interface{}) (o Outcome) {
 				start := op.I % (l + 1)
 				ref, noref := "", false
 				refrow := op.I % n
-				if op.J > 0 && !m.dupNames() {
+				if op.J > 0 && !m.dupNames() && m.rows[refrow].Name != "" { // an empty name means "no reference" to Mask
 					ref, noref = m.rows[refrow].Name, op.J == 1
 				}
 				err := al.Mask(ref, start, op.N, op.Name, op.Flag, noref)
